@@ -171,7 +171,7 @@ func (p *CodeBuilder) init(pkg *Package) {
 	p.pkg = pkg
 	p.fset = conf.DbgPositioner
 	if p.fset == nil {
-		p.fset = conf.Fset
+		p.fset = pkg.Fset // conf.Fset, or the file set NewPackage created when none was configured (never a nil *token.FileSet)
 	}
 	p.noSkipConst = conf.NoSkipConstant
 	p.handleErr = conf.HandleErr
